@@ -375,3 +375,17 @@ Example C07_domains_example :
   snd (plan_call exd 8 (exwd [mkflt "p" (Some 2) None]) (cl [3] true false true None)) = Failed EDomCmp /\
   call_matched exd 8 (exwd [mkflt "v" None (Some [1])]) (cl [0] true false true None) = [].
 Proof. exact domains_example_l. Qed.
+
+(* Set iteration order inside one call (call field c_hz; every theorem above quantifies over it, per call): when an equal
+   feature is already stored, add_feature_to_collection searches the group's collection -- a set -- with Feature.__eq__, and
+   Domain.__eq__ raises when it meets a feature of the same name and options of which exactly one has a domain before it
+   meets the equal one.  Instance: t2 = f(x, y), x and y from a group with a domain, requested without domain, a
+   domain-less filter on x: the call ends with ValueError "Cannot compare Domain with <class 'NoneType'>" or is planned
+   (filter attached to the root step), depending on that order -- alike for shared and for fresh arguments (args_reuse),
+   and the caller's objects are untouched either way. *)
+Example C07_set_order_hazard :
+  snd (plan_call exg 8 exwg (with_hz (cl [0] true false true None) 0)) = Failed EDomCmp /\
+  step_filters_of (snd (plan_call exg 8 exwg (with_hz (cl [0] true false true None) 1)))
+    = [(1, []); (0, [mkflt "x" (Some 3) (Some [0])])] /\
+  fst (plan_call exg 8 exwg (with_hz (cl [0] true false true None) 0)) = exwg.
+Proof. exact set_order_hazard_l. Qed.
